@@ -127,6 +127,24 @@ fn main() {
   }
 }
 
+/// minimal executor for futures that never wait
+pub fn storage_block_on<F: std::future::Future>(f: F) -> F::Output {
+  use std::sync::Arc;
+  use std::task::{Context, Poll, Wake, Waker};
+  struct Noop;
+  impl Wake for Noop {
+    fn wake(self: Arc<Self>) {}
+  }
+  let w = Waker::from(Arc::new(Noop));
+  let mut cx = Context::from_waker(&w);
+  let mut f = Box::pin(f);
+  loop {
+    if let Poll::Ready(v) = f.as_mut().poll(&mut cx) {
+      return v;
+    }
+  }
+}
+
 /// runs `f`, mapping a panic of the code under test to Err(message)
 pub fn no_panic<T>(f: impl FnOnce() -> T + std::panic::UnwindSafe) -> Result<T, String> {
   catch_unwind(f).map_err(|e| {
